@@ -128,7 +128,7 @@ def main():
         "hooks": {
             "guard": "cargo feature `verif` of shuttle-engine (off by default; nothing in the repository enables it)",
             "enable": "the harness crates depend on shuttle-engine with features=[\"verif\"] via path dependencies on /repo, so `./check` builds /repo's working tree with hooks on",
-            "baseline_off_cmd": "cd /repo && cargo test --workspace --no-fail-fast --offline",
+            "baseline_off_cmd": "/verif/tools/baseline.sh",
             "source_commits": ["844d50e"],
             "add_only": True,
         },
